@@ -6,6 +6,7 @@ import (
 	"fmt"
 	"go/types"
 	"sort"
+	"strings"
 
 	"golang.org/x/tools/go/ssa"
 )
@@ -35,6 +36,7 @@ type State struct {
 	ghost     map[string]Value // named ghost variables
 	priv      []privCell       // variable cells of this activation that no other code can reach yet
 	epoch     int              // >0: everything not yet materialised was havocked (unknown call) at this epoch
+	prefEpoch map[string]int   // heap-name prefix → epoch of the last Lock-havoc of that family
 }
 
 type privCell struct {
@@ -59,6 +61,12 @@ func (s *State) clone() *State {
 	n.held = append([]heldMutex(nil), s.held...)
 	n.defers = append([]deferred(nil), s.defers...)
 	n.priv = append([]privCell(nil), s.priv...)
+	if s.prefEpoch != nil {
+		n.prefEpoch = make(map[string]int, len(s.prefEpoch))
+		for k, v := range s.prefEpoch {
+			n.prefEpoch[k] = v
+		}
+	}
 	return n
 }
 
@@ -67,6 +75,12 @@ func (s *State) assume(c *Node) { s.pc = And(s.pc, c) }
 // heap returns the current array term for a heap; creates the initial symbolic one on demand.
 func (e *Exec) heap(s *State, name, sortS string) *Node {
 	if h, ok := s.heaps[name]; ok {
+		return h
+	}
+	if pe := s.prefixEpochFor(name); pe > s.epoch && !e.v.immutableHeap(name) {
+		h := TS.Const(fmt.Sprintf("heapE%d%s:%s", pe, map[bool]string{true: "s", false: ""}[nativeStrings], sanitize(name)), sortS)
+		e.heapSorts[name] = sortS
+		s.heaps[name] = h
 		return h
 	}
 	if s.epoch > 0 && !e.v.immutableHeap(name) {
@@ -614,6 +628,17 @@ func (e *Exec) mergeStates(ss []*State) *State {
 			break
 		}
 	}
+	// Lock-havoc epochs per heap family: keep the newest
+	for _, s := range live {
+		for k, v := range s.prefEpoch {
+			if out.prefEpoch == nil {
+				out.prefEpoch = map[string]int{}
+			}
+			if v > out.prefEpoch[k] {
+				out.prefEpoch[k] = v
+			}
+		}
+	}
 	// private cells: intersection
 	{
 		var keep []privCell
@@ -708,3 +733,13 @@ func (e *Exec) heap0Name(name string) string {
 }
 
 var epochCounter int
+
+func (s *State) prefixEpochFor(name string) int {
+	best := 0
+	for p, v := range s.prefEpoch {
+		if strings.HasPrefix(name, p) && v > best {
+			best = v
+		}
+	}
+	return best
+}
